@@ -26,9 +26,11 @@ pub(crate) fn stub_is_valid_for_ip(id: &Id, ip: std::net::Ipv4Addr) -> bool {
 #[kani::stub(std::time::Instant::now, clock::mock_now)]
 #[kani::stub(std::time::Instant::elapsed, clock::mock_elapsed)]
 fn c14_node_age_thresholds() {
-    let age: u64 = kani::any();
-    kani::assume(age <= 4 * 3_600_000);
-    let n = node_aged(Id::from([1u8; 20]), SocketAddrV4::new(1u32.into(), 1), age);
+    let secs: u64 = kani::any();
+    let ms: u64 = kani::any();
+    kani::assume(secs <= 4 * 3600 && ms < 1000);
+    let age = secs * 1000 + ms;
+    let n = Node(Arc::new(NodeInner { id: Id::from([1u8; 20]), address: SocketAddrV4::new(1u32.into(), 1), token: None, last_seen: clock::ago_parts(secs, ms) }));
     assert!(n.is_stale() == (age > 15 * 60 * 1000), "C12/C14: stale <=> not heard from for more than 15 minutes");
     assert!(n.should_ping() == (age > 10_000));
     assert!(n.valid_token() == (age <= 5 * 60 * 1000));
